@@ -420,6 +420,58 @@ Example ex_wlin :
      [mk_hop (LStore 0 7 1) 1 2; mk_hop (LGet 1 7 (Some 1%N)) 3 4]] = [true; false; false].
 Proof. vm_compute. reflexivity. Qed.
 
+(* 12e. Expiry as the code computes it.  srcgen's translation of CacheEntry.IsExpired (with
+        CacheEntry.remaining; the clock is the parameter [now], every reading inside one call
+        sees the same instant) is the model's [expired_model] of the entry's stored / ttl /
+        cutUntil, and it is monotone in the clock: an entry found expired stays expired. *)
+Theorem translated_expiry_is_model : forall now e,
+  go_CacheEntry_IsExpired now e =
+    expired_model (T_CacheEntry_stored e) (T_CacheEntry_ttl e) (T_CacheEntry_cutUntil e) now /\
+  forall t', (now <= t')%Z -> go_CacheEntry_IsExpired now e = true -> go_CacheEntry_IsExpired t' e = true.
+Proof. intros now e. split; [apply Proofs_wrap.gen_is_expired|intros t' H; apply Proofs_wrap.is_expired_mono; exact H]. Qed.
+Print Assumptions translated_expiry_is_model.
+
+(* 12f. wrappers_are_a_map_of_fresh_entries with the TRANSLATED predicate: [ent] gives the
+        entry behind an identity (its stored / ttl / cutUntil never change), [tend] is an
+        instant no call of the run reads the clock after.  Programs whose clean-ups
+        CompareAndDelete only entries that the code's own IsExpired found expired at some
+        instant t <= tend: for every schedule the callers' history, read through
+        "expired at tend", is a legal history of the finite map, the fresh part of the tables
+        is what it leaves, and a clean-up that hit removed exactly the entry that was current
+        and that IsExpired says has expired.  (A hit on an entry that runs out later during
+        the run reads as a miss in this view: the view is the coarsest one, at the end.) *)
+Theorem wrappers_with_translated_expiry :
+  forall (mix : N -> N) (sidx : nat -> N -> nat) (eoff : N -> Z) (rescan : bool),
+  (forall n k, 0 < n -> sidx n k < n) ->
+  forall (ent : N -> T_CacheEntry) (tend : Z) m0 progs sched, SWF mix sidx m0 ->
+  (forall p c, In p progs -> In c p -> wshape c = true /\
+     forall k old, c = CCad k old -> exists t, (t <= tend)%Z /\ go_CacheEntry_IsExpired t (ent old) = true) ->
+  let ex := expired_at ent tend in
+  let r := run_log mix sidx eoff rescan (init m0 progs) sched in
+  let W := wview ex (sabs sidx m0) (snd r) in
+  legal (fun k => fresh ex (sabs sidx m0 k)) W = true /\
+  (forall k, fresh ex (sabs sidx (c_map (fst r)) k) = reg W k (fresh ex (sabs sidx m0 k))) /\
+  (forall l1 t k old l2, snd r = l1 ++ LCad t k old true :: l2 ->
+     go_CacheEntry_IsExpired tend (ent old) = true /\ reg l1 k (sabs sidx m0 k) = Some old).
+Proof. exact Proofs_wrap.wrappers_linearize_clock. Qed.
+Print Assumptions wrappers_with_translated_expiry.
+
+(* entries as the code sees them (ns): entry 1 stored at 0 with ttl 10 s; entry 2 stored at
+   8 s with ttl 1 h but cut at 9 s; at 5 s both are fresh, at 9 s entry 2 is cut off, at 10 s
+   both have expired; the programs of ex_wrap are wrapper programs for the translated
+   predicate at tend = 10 s when identity 1 is entry 1 and every other identity is fresh *)
+Definition ex_entry (stored ttl cut : Z) : T_CacheEntry :=
+  mk_T_CacheEntry [] [] 0 (mk_T_Question [] 0 0) false 0 false stored ttl 0 0 0 (mk_T_EDNS0_EDE 0 []) cut 0.
+Definition ex_ent (v : N) : T_CacheEntry :=
+  if N.eqb v 1 then ex_entry 0 10000000000 0 else ex_entry 8000000000 3600000000000 0.
+Example ex_expiry :
+  map (fun now => (go_CacheEntry_IsExpired now (ex_entry 0 10000000000 0),
+                   go_CacheEntry_IsExpired now (ex_entry 8000000000 3600000000000 9000000000)))
+      [5000000000; 9000000000; 9999999999; 10000000000]%Z
+  = [(false, false); (false, true); (false, true); (true, true)] /\
+  forallb (forallb (wcall (expired_at ex_ent 10000000000))) wrap_progs = true.
+Proof. vm_compute. split; reflexivity. Qed.
+
 (* the search of Run.v on recorded concurrent Gets of the limiter store (CaseLimC): two
    first-sight Gets of one key that overlap and agree are fine; two that hand out different
    limiters, a limiter handed out under two keys, and more keys than the store has room for
@@ -507,9 +559,9 @@ Example ex_limiter :
 Proof. eexists. vm_compute. repeat split; reflexivity. Qed.
 
 (* 15. The Go functions themselves, as srcgen translates them on every run
-       (Gen.C16: primaryIndex, getSegmentIndex, backwardShiftDelete, EvictKeysAt, Del, Get
+       (Gen.C16: primaryIndex, getSegmentIndex, backwardShiftDelete, EvictKeysAt, Del, Get, Has, Clear
        as whole functions with the receiver handed back, the probe loop of Put),
-       compute what the model's hidx / go_sidx / bshift / tevict / tdel / tget / put_core compute,
+       compute what the model's hidx / go_sidx / bshift / tevict / tdel / tget / thas / tclear / put_core compute,
        on every table with a power-of-two slot array (gotab p t : the Go struct for the
        model table t; fuel > len (+ n for EvictKeysAt); "t_bad … = false": the model
        stayed inside its faithful envelope, which wf_preserved guarantees for every
@@ -540,7 +592,10 @@ Theorem translated_code_is_model : forall p, p <= 62 ->
      end) /\
   (forall fuel t k, length (t_data t) = 2 ^ p -> 2 ^ p < fuel ->
      go_UInt64Map_Get fuel (gotab p t) k =
-     Some (match tget go_mix t k with Some v => (v, true) | None => (0%N, false) end)).
+     Some (match tget go_mix t k with Some v => (v, true) | None => (0%N, false) end)) /\
+  (forall fuel t k, length (t_data t) = 2 ^ p -> 2 ^ p < fuel ->
+     go_UInt64Map_Has fuel (gotab p t) k = Some (thas go_mix t k)) /\
+  (forall t, length (t_data t) = 2 ^ p -> go_UInt64Map_Clear (gotab p t) = gotab p (tclear t)).
 Proof.
   intros p Hp. repeat split.
   - intros m k H. apply gen_primaryIndex; auto.
@@ -551,6 +606,8 @@ Proof.
   - intros fuel t k v idx Hl Hi Hk Hf. unfold go_UInt64Map_Put_loop1_run.
     apply (gen_put_loop p Hp fuel fuel t k v idx 1 Hl Hi Hk). lia.
   - intros. apply gen_get; auto.
+  - intros. apply gen_has; auto.
+  - intros. apply gen_clear; auto.
 Qed.
 Print Assumptions translated_code_is_model.
 
